@@ -58,7 +58,8 @@ EXPECTED_PROBES = {
     'C13': ['label', 'raw', 'curated', 'convert_into_source', 'convert_into_source:symlink',
             'convert_into_source:dotdot', 'temp_wh', 'preexisting_store',
             'no_features', 'multi_probe_table', 'highest_template_unused',
-            'second_export_from_same_session', 're_export_into_same_directory'],
+            'second_export_from_same_session', 're_export_into_same_directory',
+            'params_name_a_missing_raw_file'],
     'C14': ['pipeline', 'pipeline_k>=3', 'features', 'no_features', 'empty_cluster_id',
             'few_channels_on_probe', 'factor', 'second_export_from_same_session',
             're_export_into_same_directory'],
@@ -1049,6 +1050,9 @@ def run_ops(plan, ctx, cfg):
             ctx.ev(step, 'convert', sorted(world.snapshot(out).items()))
             if model.traces is not None:
                 ctx.probe('raw')
+            elif cfg.get('dataset', {}).get('raw_missing'):
+                ctx.probe('params_name_a_missing_raw_file')
+                ctx.fault('raw_file_absent')
             if not np.array_equal(model.spike_clusters, model.spike_templates):
                 ctx.probe('curated')
             if model.sparse_features is None:
